@@ -440,6 +440,9 @@ Proof.
   - inversion H; subst. fin_exit.
 Qed.
 
+(* keep the kernel from unfolding the model while it re-checks the case analyses below *)
+Opaque publish pub do_log.
+
 (* a call that returned normally: STARTED after start, STOPPED after stop, EXITING after
    exit/restart (and it was not entered in STARTING); every other call leaves the state alone *)
 Definition clean_state (k : call) (w w' : world) : Prop :=
@@ -497,6 +500,8 @@ Proof.
   repeat split; auto. intros o Ho. now destruct (C o Ho).
 Qed.
 
+Transparent publish pub do_log.
+
 (* ------------------------------------------------------------------ with log listeners that do not raise *)
 Definition LQ (c : cfg) (w : world) : Prop := log_subs_quiet c = true /\ logq c w.
 Definition ext (w w' : world) : Prop := exists new, w_journal w' = new ++ w_journal w.
@@ -524,6 +529,8 @@ Qed.
 Lemma pub_LQ : forall c ch w w' r, LQ c w -> pub c ch w = (w', r) -> LQ c w'.
 Proof. intros c ch w w' r [Hq Hl] H. apply pub_St in H. destruct H as (_ & _ & _ & L). split; auto. Qed.
 
+Opaque publish pub do_log.
+
 (* the repaired stop(): whatever the stop listeners do, the bus is STOPPED afterwards *)
 Theorem thm_stop_state : forall c w w' r,
   LQ c w -> c_fix_stop c = true -> do_stop c w = (w', r) -> w_state w' = STOPPED.
@@ -535,6 +542,34 @@ Proof.
   destruct r2; try (inversion H; subst; reflexivity).
   apply do_log_state in H. destruct H as [H _]. exact H.
 Qed.
+
+Opaque do_exit do_stop.
+
+Lemma andthen_ret : forall w o k, andthen (w, CRet o) k = k w.
+Proof. reflexivity. Qed.
+Lemma andthen_stop : forall w r k, (forall o, r <> CRet o) -> andthen (w, r) k = (w, r).
+Proof. intros w r k H. unfold andthen. cbn [fst snd]. destruct r; try reflexivity. now destruct (H outs). Qed.
+Lemma unit_ret_ret : forall w o, unit_ret (w, CRet o) = (w, CRet []).
+Proof. reflexivity. Qed.
+Lemma unit_ret_other : forall w r, (forall o, r <> CRet o) -> unit_ret (w, r) = (w, r).
+Proof. intros w r H. unfold unit_ret. cbn [fst snd]. destruct r; try reflexivity. now destruct (H outs). Qed.
+
+Definition start_body (DL : world -> world * cres) (PB : Z -> world -> world * cres)
+  (DE : world -> world * cres) (w : world) : world * cres :=
+  andthen (DL (set_state STARTING w)) (fun w =>
+    let x := andthen (unit_ret (PB CH_START w)) (fun w => DL (set_state STARTED w)) in
+    match snd x with
+    | CFail ids =>
+        andthen (DL (fst x)) (fun w =>
+          let y := DE w in
+          match snd y with
+          | CRet _ | CFail _ => (fst y, CFail ids)
+          | _ => y
+          end)
+    | _ => x
+    end).
+Lemma do_start_unfold : forall c w, do_start c w = start_body (do_log c) (pub c) (do_exit c) w.
+Proof. reflexivity. Qed.
 
 (* start(): either every start listener returned and the bus is STARTED, or it is never STARTED and
    the call does not return; when the start publish raised ChannelFailures, exit() was run from
@@ -549,39 +584,51 @@ Theorem thm_start_failure : forall c w w' r,
           /\ (r = COsExit EX_SOFTWARE \/ (exists k, r = CSys k) \/ r = CKbd \/ r = CFuel))
       \/ (w' = w2 /\ r = r2 /\ w_state w' = STARTING /\ ((exists k, r = CSys k) \/ r = CKbd \/ r = CFuel)) ).
 Proof.
-  intros c w w' r Hq H. unfold do_start in H.
-  destruct (do_log_quiet c (set_state STARTING w) (LQ_set_state _ _ _ Hq)) as (w1 & E1 & S1 & _ & Q1 & X1).
-  rewrite E1 in H. unfold andthen at 1 in H. cbn [fst snd] in H.
+  intros c w w' r Hq H. rewrite do_start_unfold in H.
+  (* the case analysis only needs these facts about log, publish and exit: hide the functions
+     behind variables, and rewrite with the andthen/unit_ret equations instead of unfolding
+     (unfolding duplicates the nested computations and the kernel re-check explodes) *)
+  pose proof (do_log_quiet c) as HDL. pose proof (pub_LQ c) as HPL. pose proof (pub_state c) as HPS.
+  pose proof (pub_no_osexit c) as HPN. pose proof (do_exit_cases c) as HDE.
+  remember (do_log c) as DL eqn:HeqDL. remember (pub c) as PB eqn:HeqPB. remember (do_exit c) as DE eqn:HeqDE.
+  clear HeqDL HeqPB HeqDE. unfold start_body in H.
+  destruct (HDL (set_state STARTING w) (LQ_set_state _ _ _ Hq)) as (w1 & E1 & S1 & _ & Q1 & X1).
+  rewrite E1, andthen_ret in H.
   cbn [set_state w_state] in S1.
-  destruct (pub c CH_START w1) as [w2 r2] eqn:E2.
-  pose proof (pub_LQ _ _ _ _ _ Q1 E2) as Q2. pose proof (pub_state _ _ _ _ _ E2) as [S2 _].
-  pose proof (pub_no_osexit _ _ _ _ _ EX_SOFTWARE E2) as N2.
+  destruct (PB CH_START w1) as [w2 r2] eqn:E2.
+  pose proof (HPL _ _ _ _ Q1 E2) as Q2. pose proof (HPS _ _ _ _ E2) as [S2 _].
   assert (S2' : w_state w2 = STARTING) by congruence.
-  exists w1, w2, r2. repeat split; auto.
-  unfold unit_ret, andthen in H. cbn [fst snd] in H.
-  destruct r2; cbn [fst snd] in H.
-  - left. destruct (do_log_quiet c (set_state STARTED w2) (LQ_set_state _ _ _ Q2)) as (w3 & E3 & S3 & _).
-    rewrite E3 in H. cbn [fst snd] in H. inversion H; subst. repeat split; eauto.
-  - right; left.
-    destruct (do_log_quiet c w2 Q2) as (w3 & E3 & S3 & _ & Q3 & X3).
-    rewrite E3 in H. cbn [fst snd] in H.
-    destruct (do_exit c w3) as [w4 r4] eqn:E4. cbn [fst snd] in H.
+  exists w1, w2, r2. split; [exact X1|]. split; [exact S1|]. split; [exact E2|].
+  destruct r2.
+  - left. rewrite unit_ret_ret, andthen_ret in H.
+    destruct (HDL (set_state STARTED w2) (LQ_set_state _ _ _ Q2)) as (w3 & E3 & S3 & _).
+    rewrite E3 in H. cbv zeta in H. cbn [fst snd] in H. inversion H; subst. repeat split; eauto.
+  - right; left. rewrite unit_ret_other, andthen_stop in H by (intros; discriminate).
+    cbv zeta in H. cbn [fst snd] in H.
+    destruct (HDL w2 Q2) as (w3 & E3 & S3 & _ & Q3 & X3).
+    rewrite E3, andthen_ret in H.
+    destruct (DE w3) as [w4 r4] eqn:E4. cbn [fst snd] in H.
     assert (S3' : w_state w3 = STARTING) by congruence.
-    pose proof (do_exit_cases _ _ _ _ E4) as (Hst & _ & Hnf & _ & Hs). specialize (Hs S3').
+    pose proof (HDE _ _ _ E4) as (Hst & _ & Hnf & _ & Hs). specialize (Hs S3').
     assert (w' = w4 /\ r = r4).
     { destruct Hs as [Hs|[[k Hs]|[Hs|Hs]]]; subst r4; inversion H; auto. }
     destruct H0; subst w4 r4. repeat split.
     + exists ids, w3. repeat split; auto.
     + destruct Hst as [Hst|[Hst|Hst]]; rewrite Hst; discriminate.
     + exact Hs.
-  - right; right. inversion H; subst. split; [reflexivity|]. split; [reflexivity|]. split; [exact S2'|].
-    left. eexists. reflexivity.
-  - right; right. inversion H; subst. split; [reflexivity|]. split; [reflexivity|]. split; [exact S2'|].
-    right; left. reflexivity.
-  - exfalso. pose proof (pub_no_osexit _ _ _ _ _ code E2). congruence.
-  - right; right. inversion H; subst. split; [reflexivity|]. split; [reflexivity|]. split; [exact S2'|].
-    right; right. reflexivity.
+  - right; right. rewrite unit_ret_other, andthen_stop in H by (intros; discriminate).
+    cbv zeta in H. cbn [fst snd] in H. inversion H; subst.
+    split; [reflexivity|]. split; [reflexivity|]. split; [exact S2'|]. left. eexists. reflexivity.
+  - right; right. rewrite unit_ret_other, andthen_stop in H by (intros; discriminate).
+    cbv zeta in H. cbn [fst snd] in H. inversion H; subst.
+    split; [reflexivity|]. split; [reflexivity|]. split; [exact S2'|]. right; left. reflexivity.
+  - exfalso. eapply HPN; eauto.
+  - right; right. rewrite unit_ret_other, andthen_stop in H by (intros; discriminate).
+    cbv zeta in H. cbn [fst snd] in H. inversion H; subst.
+    split; [reflexivity|]. split; [reflexivity|]. split; [exact S2'|]. right; right. reflexivity.
 Qed.
+
+Transparent do_exit do_stop.
 
 (* exit(): the whole table.  The stop publish runs in STOPPING; if it returned, the exit publish
    runs in EXITING; any ChannelFailures of either, or entry in STARTING, gives os._exit(70);
@@ -641,6 +688,8 @@ Proof.
   - unfold andthen, exit_guard in H. cbn [fst snd] in H. inversion H; subst. split; reflexivity.
   - unfold andthen, exit_guard in H. cbn [fst snd] in H. inversion H; subst. split; reflexivity.
 Qed.
+
+Transparent publish pub do_log.
 
 (* ------------------------------------------------------------------ concrete instances used by the Examples *)
 (* listener 0 unsubscribes listener 2 from channel 6 and subscribes listener 3 in front of everybody,
